@@ -108,6 +108,7 @@ def register_core(reg):
         out = list(ex.BUILTIN_FUNCS["callable"](ex, st, args, {}, cx, None))
         return out[0][1]
     unint("is_merge", 3)     # is_merge(r, b, c): r is the deep merge of map c into map b (defined by combine_trees' clauses)
+    unint("inside", 2)       # inside(v, c): Config object c occurs inside value v (v itself, or an item at any nesting depth)
     unint("accepts", 2)      # accepts(field, stored_value): the field's declared constraints hold of the value
     unint("ok", 2)           # ok(field, input): validation accepts the input
     unint("norm_of", 3)      # norm_of(field, input, result): result is the field's normalised form of input
